@@ -61,6 +61,12 @@ def nd_call(f, b):
     return '<%s as Decode>::need_depth(%s)' % (f['ty'], b)
 
 
+def nm_call(f, b):
+    if is_compact(f):
+        return 'None::<nat>'
+    return '<%s as Decode>::need_mem(%s)' % (f['ty'], b)
+
+
 def law_call(f, b):
     if is_compact(f):
         return 'compact_dec_lemmas::accepts_bound(%s, %d);' % (b, W[f['ty']])
@@ -89,11 +95,19 @@ def chain(fields, base, plus0):
             return cur
         return 'match %s { None => %s, Some(n%d) => max_nat(%s, %s) }' % (acc_call(fields[i], sk(i)), cur, i, cur, nd(i + 1))
 
+    def nmm(i):
+        if k == 0:
+            return 'None::<nat>'
+        cur = nm_call(fields[i], sk(i))
+        if i == k - 1:
+            return cur
+        return 'match %s { None => %s, Some(n%d) => mem_add(%s, %s) }' % (acc_call(fields[i], sk(i)), cur, i, cur, nmm(i + 1))
+
     def law(i):
         if i == k:
             return ''
         return '%s match %s { None => {}, Some(n%d) => { %s } }' % (law_call(fields[i], sk(i)), acc_call(fields[i], sk(i)), i, law(i + 1))
-    return acc(0), nd(0), law(0)
+    return acc(0), nd(0), law(0), nmm(0)
 
 
 def gparams(d, bound):
@@ -204,11 +218,12 @@ def struct_module(d, src, out, props):
     out.append('}')
     if 'Decode' in d['derives']:
         dec = find_impl(src, 'Decode', name)
-        a, nd, law = chain(ns, 'b', '0')
+        a, nd, law, nmem = chain(ns, 'b', '0')
         out.append('impl%s Decode for %s {' % (gD, ty))
         out.append('    open spec fn accepts(b: Seq<u8>) -> Option<nat> { %s }' % a)
         out.append('    open spec fn dec_bytes(v: &Self) -> Seq<u8> { %s }' % rnest([dec_term(f, vacc(f)) for f in ns]))
         out.append('    open spec fn need_depth(b: Seq<u8>) -> nat { %s }' % nd)
+        out.append('    open spec fn need_mem(b: Seq<u8>) -> Option<nat> { %s }' % nmem)
         out.append('    proof fn law_bound(b: Seq<u8>) { %s }' % law)
         out.append('    //@fn fam.%s.decode :: @family | %s | decode' % (name, dec.header))
         out += SUBS_DEC
@@ -357,14 +372,16 @@ def enum_module(d, src, out, props):
     out.append('}')
     if 'Decode' in d['derives']:
         dec = find_impl(src, 'Decode', name)
-        accs, nds, laws, decs = [], [], [], []
+        accs, nds, laws, decs, nms = [], [], [], [], []
         for v in live:
-            a, nd, law = chain(v['fields'], 'b.skip(1)', '1')
+            a, nd, law, nmem = chain(v['fields'], 'b.skip(1)', '1')
             accs.append('if b[0] == %du8 { %s }' % (idx[v['name']], a))
             nds.append('if b[0] == %du8 { %s }' % (idx[v['name']], nd))
+            nms.append('if b[0] == %du8 { %s }' % (idx[v['name']], nmem))
             laws.append('if b[0] == %du8 { %s }' % (idx[v['name']], law))
         accepts = 'if b.len() == 0 { None } else ' + ' else '.join(accs + ['{ None }'])
         need = 'if b.len() == 0 { 0 } else ' + ' else '.join(nds + ['{ 0 }'])
+        needm = 'if b.len() == 0 { None } else ' + ' else '.join(nms + ['{ None }'])
         lawb = 'if b.len() > 0 { ' + ' else '.join(laws + ['{ }']) + ' }'
         if d['variants']:
             dec_bytes = 'match *v { %s }' % arms(lambda v, n: rnest(['seq![%du8]' % idx[v['name']]] + [dec_term(f, x) for f, x in zip(v['fields'], n)]), lambda v, n: 'Seq::<u8>::empty()')
@@ -374,6 +391,7 @@ def enum_module(d, src, out, props):
         out.append('    open spec fn accepts(b: Seq<u8>) -> Option<nat> { %s }' % accepts)
         out.append('    open spec fn dec_bytes(v: &Self) -> Seq<u8> { %s }' % dec_bytes)
         out.append('    open spec fn need_depth(b: Seq<u8>) -> nat { %s }' % need)
+        out.append('    open spec fn need_mem(b: Seq<u8>) -> Option<nat> { %s }' % needm)
         out.append('    proof fn law_bound(b: Seq<u8>) { %s }' % lawb)
         out.append('    //@fn fam.%s.decode :: @family | %s | decode' % (name, dec.header))
         out += SUBS_DEC
